@@ -344,7 +344,15 @@ def _pg_gradients(rep, sess, tier, seed):
                 goals.append(S.close(S.SA(a), S.SA(b)))
             return goals
         # generalise the shared forward quantities is unnecessary: both sides are built from identical sub-terms
-        e.obligation("value=-mean(w*logpi);gradient=gradient-of-the-reference-with-weights-as-constants", same, site=f"{name}:documented-value-and-gradient")
+        e.soft = True
+        r_ = e.obligation("value=-mean(w*logpi);gradient=gradient-of-the-reference-with-weights-as-constants", same, site=f"{name}:documented-value-and-gradient")
+        if r_ is None:
+            # mode C: concrete seeded parameters / observations / actions, symbolic weights-related data -> replayable counterexample
+            e2 = E1(rep, sess, fn, ex, name + "[mode=C]", overrides=lambda ins, ex=ex: tuple(ex[:3]) + tuple(ins[3:]), numeric_consts=True, soft=True)
+            r2 = e2.obligation("value=-mean(w*logpi);gradient=gradient-of-the-reference-with-weights-as-constants", same, site=f"{name}:documented-value-and-gradient")
+            if r2 is not False:
+                for s_, w_ in e.pending + e2.pending:
+                    rep.inconclusive_(s_, w_)
 
 
 # --------------------------------------------------------------------------------- temperature
